@@ -326,12 +326,105 @@ Proof.
   - exact (E true).
 Qed.
 
+(* ---- tls / quic matchers: sets of tls.handshake_match matchers *)
+Lemma parse_neg_word_ok nr : neg_range_ok nr = true ->
+  parse_neg_word (neg_word nr) = (fst nr, range_json (snd nr)).
+Proof.
+  destruct nr as [neg [|s]]; unfold neg_range_ok, neg_word; cbn [fst snd range_word range_json].
+  - intros _. destruct neg; reflexivity.
+  - intro H. apply andb_true_iff in H. destruct H as [H1 H2]. apply negb_true_iff in H1.
+    destruct s as [|c r]; [discriminate|]. cbn [no_bang] in H2. apply negb_true_iff in H2.
+    destruct neg.
+    + unfold parse_neg_word. cbn [Ascii.eqb Bool.eqb fst snd]. cbv iota. cbn [fst snd]. now rewrite H1.
+    + unfold parse_neg_word. destruct r as [|c2 r]; [|rewrite H2]; cbn [fst snd]; now rewrite H1.
+Qed.
+
+Lemma neg_words_split (rs : list (bool * range)) :
+  let ps := map (fun nr : bool * range => (fst nr, range_json (snd nr))) rs in
+  flat_map snd (filter (fun p => negb (fst p)) ps) =
+    flat_map (fun nr : bool * range => range_json (snd nr)) (filter (fun nr => negb (fst nr)) rs) /\
+  flat_map snd (filter fst ps) = flat_map (fun nr : bool * range => range_json (snd nr)) (filter fst rs).
+Proof.
+  induction rs as [|[neg r] rs [I1 I2]]; [split; reflexivity|].
+  cbn [map filter fst snd] in *. destruct neg; cbn [negb flat_map fst snd]; rewrite I1, I2; split; reflexivity.
+Qed.
+
+Lemma neg_words_map rs : forallb neg_range_ok rs = true ->
+  map parse_neg_word (map neg_word rs) = map (fun nr : bool * range => (fst nr, range_json (snd nr))) rs.
+Proof.
+  intro H. rewrite map_map. apply map_ext_in. intros a Ha. apply parse_neg_word_ok.
+  rewrite forallb_forall in H. now apply H.
+Qed.
+
+Lemma tlsm_eq t : tlsm_ok t = true -> parse_tlsm (tlsm_name t) (tlsm_seg t) = Some (tlsm_json t).
+Proof.
+  destruct t as [l|l|rs|rs]; cbn [tlsm_ok]; intro H.
+  - destruct l; [discriminate|reflexivity].
+  - destruct l; [discriminate|reflexivity].
+  - apply andb_true_iff in H. destruct H as [Hn Hall]. destruct rs as [|nr rs]; [discriminate|].
+    unfold tlsm_seg, tlsm_name, parse_tlsm. cbn [map String.eqb Ascii.eqb Bool.eqb orb]. cbv iota.
+    change (parse_neg_word (neg_word nr) :: map parse_neg_word (map neg_word rs))
+      with (map parse_neg_word (map neg_word (nr :: rs))).
+    rewrite (neg_words_map _ Hall).
+    destruct (neg_words_split (nr :: rs)) as [E1 E2]. cbv zeta in E1, E2. rewrite E1, E2. reflexivity.
+  - apply andb_true_iff in H. destruct H as [Hn Hall]. destruct rs as [|r rs]; [discriminate|].
+    unfold tlsm_seg, tlsm_name, parse_tlsm. cbn [map String.eqb Ascii.eqb Bool.eqb orb]. cbv iota.
+    change (range_word r :: map range_word rs) with (map range_word (r :: rs)).
+    now rewrite expand_priv_ranges.
+Qed.
+
+Lemma tlsm_seg_name t : seg_name (tlsm_seg t) = tlsm_name t.
+Proof. reflexivity. Qed.
+
+Lemma dedup_first_id l : forall seen,
+  (forall e, In e l -> existsb (String.eqb (seg_name e)) seen = false) ->
+  has_dup (map seg_name l) = false -> dedup_first seen l = l.
+Proof.
+  induction l as [|e l IH]; intros seen Hs Hd; [reflexivity|].
+  cbn [map has_dup] in Hd. apply orb_false_iff in Hd. destruct Hd as [He Hd].
+  cbn [dedup_first]. rewrite (Hs e (or_introl eq_refl)). f_equal. apply IH; [|exact Hd].
+  intros e' Hin. cbn [existsb]. rewrite (Hs e' (or_intror Hin)), orb_false_r.
+  destruct (String.eqb (seg_name e') (seg_name e)) eqn:E; [|reflexivity].
+  apply String.eqb_eq in E. exfalso.
+  assert (existsb (String.eqb (seg_name e)) (map seg_name l) = true) as C; [|congruence].
+  apply existsb_exists. exists (seg_name e'). split; [now apply in_map|]. rewrite E. apply String.eqb_refl.
+Qed.
+
+Lemma parse_tls_inline w n a :
+  parse_tls (Seg (w :: n :: a) false []) =
+  (ms <- traverse (fun en => j <- parse_tlsm (seg_name en) en ;; Some (seg_name en, j)) [Seg (n :: a) false []] ;;
+   Some (JObj (sort_kv ms))).
+Proof. reflexivity. Qed.
+
+Lemma tls_eq quic il subs : mleaf_ok (MTls quic il subs) = true ->
+  parse_tls (mleaf_seg (MTls quic il subs)) = Some (mleaf_json (MTls quic il subs)).
+Proof.
+  cbn [mleaf_ok]. intro H. apply andb_true_iff in H. destruct H as [Hd Hall]. apply negb_true_iff in Hd.
+  cbn [mleaf_seg mleaf_json]. set (w := if quic then "quic" else "tls").
+  assert (Htr : traverse (fun en => j <- parse_tlsm (seg_name en) en ;; Some (seg_name en, j)) (map tlsm_seg subs) =
+                Some (map (fun t => (tlsm_name t, tlsm_json t)) subs)).
+  { apply traverse_map. apply forallb_Forall in Hall. eapply Forall_impl; [|exact Hall].
+    intros t Ht. rewrite tlsm_seg_name, (tlsm_eq t Ht). reflexivity. }
+  assert (Hblock : parse_tls (Seg [w] true (map tlsm_seg subs)) =
+                   Some (JObj (sort_kv (map (fun t => (tlsm_name t, tlsm_json t)) subs)))).
+  { unfold parse_tls. rewrite dedup_first_id.
+    - rewrite Htr. reflexivity.
+    - intros; reflexivity.
+    - rewrite map_map. exact Hd. }
+  unfold set_seg. destruct il; [|exact Hblock].
+  destruct subs as [|t [|t2 subs]]; [exact Hblock| |exact Hblock].
+  cbn [map] in *. destruct (tlsm_seg t) as [ws hb body] eqn:E.
+  unfold tlsm_seg in E. inversion E; subst ws hb body. clear E.
+  rewrite parse_tls_inline. rewrite Htr. reflexivity.
+Qed.
+
 Definition mleaf_proved (m : mleaf) : bool := mleaf_ok m.
 
 Lemma mleaf_eq_proved x : mleaf_proved x = true ->
   mleaf_parse (mleaf_name x) (mleaf_seg x) = Some (mleaf_json x).
 Proof.
   destruct x; unfold mleaf_proved; intro H; try reflexivity.
+  - destruct quic; now apply tls_eq.
   - now apply socks4_eq.
   - now apply socks5m_eq.
   - now apply regexp_eq.
@@ -595,6 +688,12 @@ Proof.
     try (eexists _, _, _; split; reflexivity);
     try (match goal with |- context [blockL ?n [] ?f] =>
            destruct (blockL_shape n [] f) as (hb & body & E & W); exists [], hb, body; split; assumption end).
+  - (* tls / quic *)
+    set (w := if quic then "quic" else "tls").
+    assert (Hw : seg_wf (set_seg w il (map tlsm_seg subs)) = true).
+    { apply set_seg_wf. clear. induction subs as [|t subs IH]; [reflexivity|]. cbn [map forallb]. now rewrite IH. }
+    unfold set_seg in *. destruct il; [|now exists [], true, (map tlsm_seg subs)].
+    destruct (map tlsm_seg subs) as [|[ws hb body] [|? ?]]; eexists _, _, _; split; try reflexivity; exact Hw.
   - (* dns *)
     match goal with |- context [block "dns" [] (map mkline ?L)] =>
       destruct (block_shape "dns" [] (map mkline L) (mklines_wf L)) as (hb & body & E & W) end.
@@ -619,7 +718,7 @@ Proof.
 Qed.
 
 Lemma mleaf_not_not x : mleaf_name x <> "not".
-Proof. destruct x; discriminate. Qed.
+Proof. destruct x; cbn [mleaf_name]; try destruct quic; discriminate. Qed.
 Lemma hleaf_not_struct x : hleaf_name x <> "tee" /\ hleaf_name x <> "subroute".
 Proof. destruct x; split; discriminate. Qed.
 Lemma hleaf_obj x : exists l, hleaf_json x = JObj l.
